@@ -113,3 +113,166 @@ Proof.
     destruct Hstep as [Hs Ht2]. destruct (IH _ _ H Ht2) as [Hl Ht1]. split; [|exact Ht1].
     rewrite Hl, Hs, <- app_assoc. reflexivity.
 Qed.
+
+(* ---------------------------------------------------------------- regress-<path>-parallel *)
+Lemma beq_last_false a b d : last a d <> last b d -> beq a b = false.
+Proof. intros H. destruct (beq_spec a b) as [->|]; [congruence|reflexivity]. Qed.
+
+Lemma last_app_ne' {A} (a b : list A) d : b <> [] -> last (a ++ b) d = last b d.
+Proof.
+  intros Hb. induction a as [|x a IH]; simpl; [reflexivity|].
+  destruct (a ++ b) eqn:Eab; [destruct a; simpl in Eab; [congruence|discriminate]|exact IH].
+Qed.
+
+Lemma regress_name_last p s d : s <> [] -> last (regress_name p s) d = last s d.
+Proof.
+  intros Hs. unfold regress_name. rewrite last_app_ne' by (destruct p; discriminate).
+  change (p ++ 45 :: s) with (p ++ [45] ++ s). rewrite app_assoc. now apply last_app_ne'.
+Qed.
+
+Lemma regress_name_inj p q s : regress_name p s = regress_name q s -> p = q.
+Proof.
+  unfold regress_name. intros H. apply app_inv_head in H.
+  change (p ++ 45 :: s) with (p ++ (45 :: s)) in H. change (q ++ 45 :: s) with (q ++ (45 :: s)) in H.
+  now apply app_inv_tail in H.
+Qed.
+
+Definition is_nopar (o : ropt) : bool := match o with O_no_parallel => true | _ => false end.
+
+Definition nopar_typed (c : cfg) (p : bytes) : Prop :=
+  find_var (c_vars c) (rn_parallel p) = None \/ find_var (c_vars c) (rn_parallel p) = Some (VInt 0).
+
+Lemma short_ne_rn kw p : (length kw < 17)%nat -> beq kw (rn_parallel p) = false.
+Proof. intros H. apply beq_len_false. rewrite rn_parallel_length. lia. Qed.
+
+Lemma apply_ropts_nopar E p opts : forall c path c1,
+  apply_ropts E TRg c path opts = Some c1 -> nopar_typed c p ->
+  find_var (c_vars c1) (rn_parallel p) =
+    (if beq path p && existsb is_nopar opts then Some (VInt 0) else find_var (c_vars c) (rn_parallel p))
+  /\ nopar_typed c1 p.
+Proof.
+  induction opts as [|o opts IH]; intros c path c1; simpl.
+  - intros H Ht; inversion H; subst. rewrite andb_false_r. auto.
+  - destruct (apply_ropt E TRg c path o) as [c2|] eqn:Ho; [|discriminate]. intros H Ht.
+    assert (Hstep : find_var (c_vars c2) (rn_parallel p) =
+                    (if beq path p && is_nopar o then Some (VInt 0) else find_var (c_vars c) (rn_parallel p))
+                    /\ nopar_typed c2 p).
+    { destruct (is_nopar o) eqn:Hn.
+      - destruct o; try discriminate. simpl in Ho. inversion Ho; subst. fold (rn_parallel path).
+        destruct (beq_spec path p) as [->|Hne]; simpl.
+        + destruct Ht as [Ht|Ht]; unfold nopar_typed; simpl.
+          * rewrite (find_var_app_none _ _ _ Ht). simpl. rewrite beq_refl. auto.
+          * rewrite (find_var_app_some _ _ _ _ Ht). auto.
+        + assert (Hb : beq (rn_parallel path) (rn_parallel p) = false).
+          { apply beq_false_ne. intros Heq. apply Hne. unfold rn_parallel in Heq. now apply regress_name_inj in Heq. }
+          unfold nopar_typed. simpl. rewrite (find_var_app_other _ _ _ _ Hb). auto.
+      - rewrite andb_false_r.
+        assert (Hb : beq (ropt_target path o) (rn_parallel p) = false).
+        { destruct o; try discriminate; cbn [ropt_target];
+            try (apply short_ne_rn; vm_compute; lia);
+            (apply (beq_last_false _ _ 0); unfold rn_parallel; rewrite !regress_name_last by discriminate; vm_compute; discriminate). }
+        pose proof (untouched_apply_ropt E TRg (rn_parallel p) (rn_parallel_not_fun p) c path o c2 Hb Ho) as Hu.
+        unfold nopar_typed. rewrite Hu. auto. }
+    destruct Hstep as [Hs Ht2]. destruct (IH _ _ _ H Ht2) as [Hl Ht1]. split; [|exact Ht1].
+    rewrite Hl, Hs. destruct (beq path p); simpl; [|reflexivity].
+    destruct (is_nopar o); simpl; [destruct (existsb is_nopar opts); reflexivity|reflexivity].
+Qed.
+
+Definition has_no_parallel (p : bytes) (e : entry) : bool :=
+  match grammar_for_keyword (t_grammar TRg) (en_kw e) with
+  | Some g => match gr_fn g, en_val e with
+              | PF_regress, E_regress path opts => beq path p && existsb is_nopar opts
+              | _, _ => false
+              end
+  | None => false
+  end.
+
+Theorem nopar_run_entries E p es : forall c c1,
+  run_entries E TRg c es = Some c1 -> nopar_typed c p ->
+  find_var (c_vars c1) (rn_parallel p) =
+    (if existsb (has_no_parallel p) es then Some (VInt 0) else find_var (c_vars c) (rn_parallel p))
+  /\ nopar_typed c1 p.
+Proof.
+  induction es as [|e es IH]; intros c c1; cbn [run_entries existsb].
+  - intros H Ht; inversion H; subst. auto.
+  - unfold has_no_parallel at 1.
+    destruct (grammar_for_keyword (t_grammar TRg) (en_kw e)) as [g|] eqn:Hg; [|discriminate].
+    destruct (value_fits (gr_fn g) (en_val e) && (gr_rep g || negb (present c (en_kw e)))) eqn:Hv; [|discriminate].
+    destruct (apply_entry E TRg c g e) as [c2|] eqn:Ha; [|discriminate]. intros H Ht.
+    destruct (TRg_settable _ _ Hg) as [Hlen Hfn].
+    assert (Hk : beq (en_kw e) (rn_parallel p) = false) by (now apply short_ne_rn).
+    assert (Hstep : find_var (c_vars c2) (rn_parallel p) =
+                    (if match gr_fn g, en_val e with
+                        | PF_regress, E_regress path opts => beq path p && existsb is_nopar opts
+                        | _, _ => false end
+                     then Some (VInt 0) else find_var (c_vars c) (rn_parallel p))
+                    /\ nopar_typed c2 p).
+    { apply andb_true_iff in Hv. destruct Hv as [Hfit _].
+      destruct (gr_fn g) eqn:Hf; destruct (en_val e) as [b|z|s|l|n u|path opts|name opts] eqn:Hev; try discriminate;
+        try (assert (Hu : find_var (c_vars c2) (rn_parallel p) = find_var (c_vars c) (rn_parallel p))
+               by (eapply (untouched_apply_entry E TRg (rn_parallel p) (rn_parallel_not_fun p)); [exact Hk| |exact Ha];
+                   rewrite Hf, Hev; repeat constructor; apply short_ne_rn; simpl; lia);
+             unfold nopar_typed; rewrite Hu; auto; fail).
+      unfold apply_entry in Ha. rewrite Hf, Hev in Ha. simpl in Ha.
+      destruct (apply_ropts E TRg c path opts) as [c3|] eqn:Hr; [|discriminate]. inversion Ha; subst.
+      destruct (apply_ropts_nopar E p opts c path c3 Hr Ht) as [H3 Ht3].
+      assert (Hb : beq str_regress (rn_parallel p) = false) by (apply short_ne_rn; simpl; lia).
+      unfold nopar_typed. rewrite (untouched_concat_list (rn_parallel p) c3 str_regress [path] Hb). auto. }
+    destruct Hstep as [Hs Ht2]. destruct (IH _ _ H Ht2) as [Hl Ht1]. split; [|exact Ht1].
+    rewrite Hl, Hs.
+    destruct (match gr_fn g, en_val e with PF_regress, E_regress path opts => beq path p && existsb is_nopar opts | _, _ => false end);
+      simpl; [destruct (existsb (has_no_parallel p) es); reflexivity|reflexivity].
+Qed.
+
+(* ---------------------------------------------------------------- the schedule in terms of the entries *)
+Lemma plain_free_parallel : plain_free TRg kw_parallel = true.
+Proof. vm_compute. reflexivity. Qed.
+
+(* the global switch as written: parallel yes|no, default yes *)
+Definition entries_global (E : env) (es : list entry) : Z :=
+  match kw_value E TRg kw_parallel es with Some (VInt z) => z | Some _ => 1%Z | None => 1%Z end.
+
+(* a test runs in parallel iff the switch is on and no entry of its path says no-parallel *)
+Definition entries_par (E : env) (es : list entry) (n : bytes) : bool :=
+  if (entries_global E es =? 0)%Z then false else negb (existsb (has_no_parallel n) es).
+
+Lemma filter_ext' {A} (f g : A -> bool) l : (forall x, f x = g x) -> filter f l = filter g l.
+Proof. intros H. induction l as [|x l IH]; simpl; [reflexivity|]. now rewrite H, IH. Qed.
+
+Theorem regress_schedule_of_entries E es c :
+  run_entries E TRg (cfg_init TRg) es = Some c ->
+  let l := flat_map regress_path_of es in
+  names (snd (raw_steps E TRg (after_parse TRg c))) =
+    map fst (rows_before (t_steps TRg)) ++ filter (entries_par E es) l
+    ++ filter (fun n => negb (entries_par E es n)) l ++ map fst (rows_after (t_steps TRg))
+  /\ map ss_par (snd (raw_steps E TRg (after_parse TRg c))) =
+    map (fun _ => false) (rows_before (t_steps TRg)) ++ map (fun _ => true) (filter (entries_par E es) l)
+    ++ map (fun _ => false) (filter (fun n => negb (entries_par E es n)) l) ++ map (fun _ => false) (rows_after (t_steps TRg)).
+Proof.
+  intros Hr. cbv zeta. change (after_parse TRg c) with c.
+  destruct (regress_two_passes E c) as [Hn [Hp _]].
+  assert (Hl : match find_var (c_vars c) str_regress with Some (VList l) => l | _ => [] end = flat_map regress_path_of es).
+  { destruct (regress_list_run_entries E es _ _ Hr (or_introl eq_refl)) as [Hl _]. exact Hl. }
+  assert (Hg : global_parallel c = entries_global E es).
+  { unfold global_parallel, entries_global.
+    rewrite (plain_value_run_entries E TRg kw_parallel plain_free_parallel es _ _ Hr). reflexivity. }
+  assert (Hpar : forall n, par_of c n = entries_par E es n).
+  { intros n. unfold par_of, entries_par. rewrite Hg. destruct (entries_global E es =? 0)%Z; [reflexivity|].
+    destruct (nopar_run_entries E n es _ _ Hr (or_introl eq_refl)) as [Hv _]. rewrite Hv.
+    destruct (existsb (has_no_parallel n) es); reflexivity. }
+  rewrite Hl in Hn, Hp. split.
+  - rewrite Hn. rewrite (filter_ext' _ _ _ Hpar).
+    rewrite (filter_ext' (fun n => negb (par_of c n)) (fun n => negb (entries_par E es n))) by (intros; now rewrite Hpar). reflexivity.
+  - rewrite Hp. rewrite (filter_ext' _ _ _ Hpar).
+    rewrite (filter_ext' (fun n => negb (par_of c n)) (fun n => negb (entries_par E es n))) by (intros; now rewrite Hpar). reflexivity.
+Qed.
+
+(* canvas: the step entries in configuration order, then end *)
+Theorem canvas_schedule_of_entries E es c :
+  run_entries E (tables_of CANVAS) (cfg_init (tables_of CANVAS)) es = Some c ->
+  snd (raw_steps E (tables_of CANVAS) (after_parse (tables_of CANVAS) c)) =
+  map (fun s => mk_sstep (cs_name s) (cs_command s) (cs_parallel s)) (flat_map (step_of_entry (tables_of CANVAS)) es)
+  ++ [mk_sstep [101; 110; 100] (script_argv (tables_of CANVAS) (fst (t_canvas_end (tables_of CANVAS))) [101; 110; 100]) false].
+Proof.
+  intros Hr. rewrite raw_canvas. rewrite (steps_run_entries E _ es _ _ Hr). reflexivity.
+Qed.
